@@ -15,7 +15,7 @@ import (
 
 func c11Opts(r *mon.RNG, i int) *gram.GenOpts {
 	prof := []int{gram.ProfStateful, gram.ProfStateful, gram.ProfDefault, gram.ProfLower, gram.ProfScanCfg}[i%5]
-	o := &gram.GenOpts{Profile: prof, MaxProds: 5, Budget: 14 + r.Intn(12), Depth: 2 + r.Intn(3), TokKinds: false, Unions: true,
+	o := &gram.GenOpts{Profile: prof, MaxProds: 5, Budget: 14 + r.Intn(12) + (i/90)*6, Depth: 2 + r.Intn(3) + i/150, TokKinds: false, Unions: true,
 		SharePrefix: 7, CaptureBias: 3, SubBias: 7, AllowBang: false, ForcePos: true, NamesElided: i%9 == 8}
 	if o.NamesElided {
 		o.Profile = gram.ProfStateful // only this profile has elided token types a grammar can name
@@ -231,7 +231,7 @@ func init() {
 		Rule:        "case = (generated grammar whose productions all carry Pos, EndPos and Tokens - directly, through an embedded struct, or as a named type convertible from lexer.Position; input with random spaces/newlines/comments; lookahead; AllowTrailing). On every successful parse (a) model-free invariants against Parser.Lex output: each Tokens is a contiguous slice of the stream, child within parent, siblings disjoint and in input order, Pos = first non-elided token of the run, EndPos = next raw token, Pos<=EndPos; (b) model-based: every node's (Tokens, Pos, EndPos) equals the run the reference derivation consumed, and the root's run ends where the parse stopped. Non-trivial: >=2 nodes checked and the reference trace abandoned an attempt before the parse succeeded. Distinct by (grammar IR, text, configuration).",
 		Assumptions: []string{"Pos/EndPos are only judged for nodes that consumed at least one token, in grammars that do not name elided types (as the property says)"},
 		Batches:     func(t string) int { return pick(t, 4, 16) },
-		Floor:       func(t string) int { return pick(t, 1000, 20000) },
+		Floor:       func(t string) int { return pick(t, 800, 12000) },
 		TimeoutSec:  func(t string) int { return pick(t, 300, 3600) },
 		Prepare:     gramPrepare("C11", func(t string) int { return pick(t, 90, 220) }, c11Opts, witnessExtra, false),
 		Child:       c11Child,
